@@ -16,7 +16,7 @@ RULE = ("grammars and ordered pairs of grammars (shared variable names, the same
 ASSUMPTIONS = ["comparison bounded to words of length <= %d" % N]
 TIERS = {
     "quick": {"workers": 4, "random": 1200},
-    "thorough": {"workers": 16, "random": 10000, "pytest": True, "hard_timeout": 3000},
+    "thorough": {"workers": 16, "random": 25000, "pytest": True, "hard_timeout": 3000},
 }
 MIN = {"quick": {"C10.CFG.union": 2000, "C10.CFG.concatenate": 2000, "C10.CFG.get_closure": 1000,
                  "C10.CFG.get_positive_closure": 1000, "C10.CFG.reverse": 1000, "C10.CFG.substitute": 3000},
